@@ -49,44 +49,52 @@ def scope_consts(repo):
     sites.append(("type_resolver::resolve_method_call: method id", bool(re.search(r"let\s+method_id\s*=\s*method_node\.get_identifier\(\)\.to_uppercase\(\)", body))))
     m, blk = arms_before_catchall(body, r"method_id\.as_str\(\)")
     procs, nats = [], []
-    for arm in re.finditer(r'"([^"]*)"\s*=>\s*return\s+Some\(EvalType::(\w+)', blk):
-        (procs if arm.group(2) == "Proc" else nats).append(arm.group(1))
+    for arm in re.finditer(r'((?:"[^"]*"\s*\|\s*)*"[^"]*")\s*=>\s*return\s+Some\(EvalType::(\w+)', blk):
+        (procs if arm.group(2) == "Proc" else nats).extend(re.findall(r'"([^"]*)"', arm.group(1)))
     if not procs or not nats:
         raise ValueError("intrinsic arms not found")
+    # every string pattern of the match must have been read (an arm of another shape fails closed)
+    head = blk[:re.search(r"\b_\s*=>", blk).start()] if re.search(r"\b_\s*=>", blk) else blk
+    if sorted(re.findall(r'"([^"]*)"\s*(?:\||=>)', head)) != sorted(procs + nats):
+        raise ValueError("intrinsic arms: not every string pattern of the match was read")
 
     # ---- class index --------------------------------------------------------------------------
     ds = extract.strip_comments(extract.read(repo, "manager/document_service.rs"))
     body = extract.fn_body(ds, "get_uri_for_class")
-    sites.append(("document_service::get_uri_for_class: lookup key", bool(re.search(r"\.get\(&class_name\.to_uppercase\(\)\)", body))))
+    key = extract.first_arg_of(body, r"class_uri_map\s*\.\s*read\(\)\s*\.\s*unwrap\(\)\s*\.\s*get\(")
+    if key is None:
+        raise ValueError("get_uri_for_class: class_uri_map lookup not found")
+    sites.append(("document_service::get_uri_for_class: lookup key", extract.folded_in(body)(key)))
     body = extract.fn_body(ds, "index_files")
-    ins = re.search(r"class_uri_map\.write\(\)\.unwrap\(\)\.insert\(([^,]*),", body)
-    if not ins:
+    key = extract.first_arg_of(body, r"class_uri_map\s*\.\s*write\(\)\s*\.\s*unwrap\(\)\s*\.\s*insert\(")
+    if key is None:
         raise ValueError("class_uri_map insert not found")
-    sites.append(("document_service::index_files: insert key", ".to_uppercase()" in ins.group(1)))
+    sites.append(("document_service::index_files: insert key", extract.folded_in(body)(key)))
 
     # ---- symbol table ---------------------------------------------------------------------------
     st = extract.strip_comments(extract.read(repo, "analyzers_v2/symbol_table.rs"))
     for fn in ("get_symbol_info", "search_symbol_info_wparent", "search_all_symbol_info", "search_symbol_info"):
         body = extract.fn_body(st[st.index("impl ISymbolTable for SymbolTable"):], fn)
-        g = re.search(r"hash_map\.get\(&([^)]*\))\)", body)
-        if not g:
+        KEY = r"hash_map\s*\.\s*get\("
+        g, where = extract.first_arg_of(body, KEY), body
+        if g is None:
             # the lookup may sit in a private helper the function calls (`self.local_index_of(id)`): follow one level
             for h in re.findall(r"self\.(\w+)\(", body):
                 try:
                     hb = extract.fn_body(st, h)
                 except Exception:
                     continue
-                g = re.search(r"hash_map\.get\(&([^)]*\))\)", hb)
-                if g:
+                g, where = extract.first_arg_of(hb, KEY), hb
+                if g is not None:
                     break
-        if not g:
+        if g is None:
             raise ValueError("hash_map.get not found in " + fn)
-        sites.append(("symbol_table::%s: lookup key" % fn, ".to_uppercase()" in g.group(1)))
+        sites.append(("symbol_table::%s: lookup key" % fn, extract.folded_in(where)(g)))
     body = extract.fn_body(st[st.index("impl ISymbolTable for SymbolTable"):], "insert_symbol_info")
-    g = re.search(r"hash_map\.insert\(([^,]*),", body)
-    if not g:
+    g = extract.first_arg_of(body, r"hash_map\s*\.\s*insert\(")
+    if g is None:
         raise ValueError("hash_map.insert not found")
-    sites.append(("symbol_table::insert_symbol_info: insert key", ".to_uppercase()" in g.group(1)))
+    sites.append(("symbol_table::insert_symbol_info: insert key", extract.folded_in(body)(g)))
 
     # ---- completion filters ---------------------------------------------------------------------
     cs = extract.strip_comments(extract.read(repo, "manager/completion_service.rs"))
